@@ -2190,3 +2190,170 @@ Definition ex_app_plain : app := mkApp
   [ (s2b "root", s2b "root"); (s2b "foo", s2b "foo"); (s2b "_catch", s2b "catch"); (s2b "root_nor", s2b "rot") ]
   [ (s2b "go_menu", s2b "go on"); (s2b "go_menu_nor", s2b "videre") ]
   [ (s2b "other", [ex_fr "o" []]) ].
+
+(* ================================================================================== *)
+(* Part 10 — C05 along a run: a live symbol stays visible while the run stays at or   *)
+(*           below its level                                                          *)
+(* ================================================================================== *)
+
+Definition step_machine (o : step_out) : vmst :=
+  match o with Done (v, _, _) => v | Next _ _ v => v end.
+
+(* every exit of one iteration hands out one of five machines *)
+Lemma run_step_exits rs sep lang b v (Q : vmst -> Prop) :
+  Q v -> Q (run_prelude v) ->
+  (forall op b1 v1 b2 s, step_exec rs sep (eff_lang lang (v_st v)) op b1 (run_prelude v) = (v1, b2, s) -> Q v1) ->
+  (forall v1 b2 s v2 b3 s2, Q v1 -> err_check v1 b2 s = (v2, b3, s2) -> Q v2) ->
+  (forall v2 v3 b4 s3, Q v2 -> dead_check v2 = (v3, b4, s3) -> Q v3) ->
+  Q (step_machine (run_step rs sep lang b v)).
+Proof.
+  intros Q0 Qp Qx Qe Qd. unfold run_step. destruct (getf (v_st v) FLAG_TERMINATE); [exact Q0|]. cbv zeta.
+  destruct (op_split b) as [[op b1]|e|n]; [|exact Qp|exact Qp].
+  assert (Hmain :
+    let '(v1, b2, s) := step_exec rs sep (eff_lang lang (v_st v)) op b1 (run_prelude v) in
+    Q (step_machine (if op =? op_HALT then Done (v1, b2, s) else
+      let '(v2, b3, s2) := err_check v1 b2 s in
+      match s2 with
+      | SOk => match b3 with
+               | [] => let '(v3, b4, s3) := dead_check v2 in
+                       match s3 with
+                       | SOk => match b4 with [] => Done (v3, [], SOk) | _ => Next (eff_lang lang (v_st v)) b4 v3 end
+                       | _ => Done (v3, b4, s3)
+                       end
+               | _ => Next (eff_lang lang (v_st v)) b3 v2
+               end
+      | _ => Done (v2, b3, s2)
+      end))).
+  { destruct (step_exec rs sep _ op b1 (run_prelude v)) as [[v1 b2] s] eqn:Hx.
+    pose proof (Qx _ _ _ _ _ Hx) as Q1.
+    destruct (op =? op_HALT); [exact Q1|].
+    destruct (err_check v1 b2 s) as [[v2 b3] s2] eqn:He. pose proof (Qe _ _ _ _ _ _ Q1 He) as Q2.
+    destruct s2; try exact Q2. destruct b3 as [|x b3]; [|exact Q2].
+    destruct (dead_check v2) as [[v3 b4] s3] eqn:Hd. pose proof (Qd _ _ _ _ Q2 Hd) as Q3.
+    destruct s3; try exact Q3. destruct b4; exact Q3. }
+  destruct (parse_args op b1) as [[i b2]|e|n]; [| |exact Qp];
+    (destruct (step_exec rs sep (eff_lang lang (v_st v)) op b1 (run_prelude v)) as [[v1 b2'] s]; exact Hmain).
+Qed.
+
+Lemma prelude_path v : s_path (v_st (run_prelude v)) = s_path (v_st v).
+Proof. unfold run_prelude. cbn [v_st vset_st vset_pg]. destruct (getf (resetf (v_st v) FLAG_LANG) FLAG_WAIT); reflexivity. Qed.
+
+Lemma dead_check_path v2 v3 b4 s3 : dead_check v2 = (v3, b4, s3) -> s_path (v_st v3) = s_path (v_st v2).
+Proof.
+  unfold dead_check. intros H. destruct (negb (getf (v_st v2) FLAG_READIN)); [injection H as <- _ _; reflexivity|].
+  destruct (getf (v_st v2) FLAG_TERMINATE); [injection H as <- _ _; reflexivity|].
+  destruct (where_sym (v_st v2)); [injection H as <- _ _; reflexivity|].
+  destruct (bytes_eqb _ catch_sym); injection H as <- _ _; reflexivity.
+Qed.
+
+Lemma run_croak_frame sep sig mode b v v' b' s :
+  run_croak sep sig mode b v = (v', b', s) ->
+  v_st v' = v_st v /\ (v_ca v' = v_ca v \/ v_ca v' = cache_reset (v_ca v)).
+Proof.
+  unfold run_croak. intros H. destruct (match_flag (v_st v) sig mode) as [[|]| |]; injection H as <- _ _; cbn; auto.
+Qed.
+
+Lemma cache_reset_levels c : c_frames c <> [] -> cache_levels (cache_reset c) = 1.
+Proof. unfold cache_reset, cache_levels. destruct (c_frames c); [congruence|reflexivity]. Qed.
+
+(* the symbol after one iteration: still in scope n (value possibly RELOADed), or gone — and then
+   the stack is shorter than n, or the lock-step of stack and cache is broken (CROAK, K-C08-croak) *)
+Definition sym_after (k : bytes) (n : N) (vo : vmst) : Prop :=
+  (exists val', lives (v_ca vo) k = Some (n, val'))
+  \/ (lives (v_ca vo) k = None /\ (len (s_path (v_st vo)) < n \/ ~ nav_inv (v_st vo) (v_ca vo))).
+
+Lemma step_symbol_lemma rs sep lang b v k n val :
+  nav_inv (v_st v) (v_ca v) -> lives (v_ca v) k = Some (n, val) ->
+  sym_after k n (step_machine (run_step rs sep lang b v)).
+Proof.
+  intros Hi Hl. apply run_step_exits.
+  - left. eauto.
+  - left. rewrite prelude_ca. eauto.
+  - intros op b1 v1 b2 s Hx. unfold step_exec in Hx.
+    destruct (parse_args op b1) as [[i b2']|e|p]; try (injection Hx as <- _ _; left; rewrite prelude_ca; eauto).
+    assert (Hi' : nav_inv (v_st (vlog (run_prelude v) (EvInstr op))) (v_ca (vlog (run_prelude v) (EvInstr op)))).
+    { unfold nav_inv in *. cbn [v_st v_ca vlog]. rewrite prelude_path, prelude_ca. exact Hi. }
+    assert (Hl' : lives (v_ca (vlog (run_prelude v) (EvInstr op))) k = Some (n, val)) by exact Hl.
+    destruct (exec_instr_symbol_lemma _ _ _ _ _ _ _ _ _ _ _ _ Hi' Hl' Hx) as [H|[[_ H]|[H [[sig [mode ->]]|Hlt]]]].
+    + left. eauto.
+    + left. exact H.
+    + right. split; [exact H|]. right. cbn [exec_instr] in Hx.
+      destruct (run_croak_frame _ _ _ _ _ _ _ _ Hx) as [Est [Eca|Eca]].
+      * rewrite Eca in H. cbn [v_ca vlog] in H. rewrite prelude_ca in H. congruence.
+      * intros Hn. unfold nav_inv in Hn, Hi. rewrite Est, Eca in Hn. cbn [v_st v_ca vlog] in Hn.
+        rewrite prelude_path, prelude_ca in Hn. rewrite cache_reset_levels in Hn by (apply (nav_inv_ne _ _ Hi)).
+        pose proof (lives_lt _ _ _ _ Hl) as Hlt. assert (n = 0) by lia. subst n.
+        rewrite Eca in H. cbn [v_ca vlog] in H. rewrite prelude_ca in H. rewrite (lives_reset0 _ _ _ Hl) in H. discriminate.
+    + right. split; [exact H|left; exact Hlt].
+  - intros v1 b2 s v2 b3 s2 Q1 He. destruct (err_check_ok _ _ _ _ _ _ He) as [_ [Est [Eca _]]].
+    unfold sym_after in *. rewrite Est, Eca. exact Q1.
+  - intros v2 v3 b4 s3 Q2 Hd. destruct (dead_check_ok _ _ _ _ Hd) as [_ [_ [_ [Eca _]]]].
+    pose proof (dead_check_path _ _ _ _ Hd) as Ep. unfold sym_after, nav_inv in *. rewrite Eca, Ep. exact Q2.
+Qed.
+
+(* a run that stays at or below level n and keeps stack and cache in lock-step *)
+Inductive reaches_within (rs : rsrc) (sep : bytes) (n : N) : conf -> conf -> Prop :=
+| within_refl : forall c, reaches_within rs sep n c c
+| within_step : forall lang b v l1 b1 v1 c,
+    run_step rs sep lang b v = Next l1 b1 v1 ->
+    n <= len (s_path (v_st v1)) -> nav_inv (v_st v1) (v_ca v1) ->
+    reaches_within rs sep n (l1, b1, v1) c -> reaches_within rs sep n (lang, b, v) c.
+
+Lemma reaches_within_reaches rs sep n c c' : reaches_within rs sep n c c' -> reaches rs sep c c'.
+Proof. induction 1; [apply reach_refl|eapply reach_step; eassumption]. Qed.
+
+(* ... keeps the symbol visible in its scope all along, so a LOAD of it anywhere on the way
+   calls nothing *)
+Lemma run_symbol_visible_lemma rs sep n k c c' :
+  reaches_within rs sep n c c' ->
+  forall val, nav_inv (v_st (snd c)) (v_ca (snd c)) -> lives (v_ca (snd c)) k = Some (n, val) ->
+  exists val', lives (v_ca (snd c')) k = Some (n, val').
+Proof.
+  induction 1 as [c|lang b v l1 b1 v1 c Hs Hlen Hi1 Hr IH]; intros val Hi Hl; [eauto|].
+  cbn [snd] in *. pose proof (step_symbol_lemma rs sep lang b v k n val Hi Hl) as H. rewrite Hs in H. cbn [step_machine] in H.
+  destruct H as [[val' H]|[_ [H|H]]]; [eapply IH; eassumption|lia|contradiction].
+Qed.
+
+Lemma run_load_once_lemma rs sep n k c l' b' v' val rs2 lang2 sz b2 :
+  reaches_within rs sep n c (l', b', v') ->
+  nav_inv (v_st (snd c)) (v_ca (snd c)) -> lives (v_ca (snd c)) k = Some (n, val) ->
+  run_load rs2 lang2 k sz b2 v' = (v', b2, SOk).
+Proof.
+  intros Hr Hi Hl. destruct (run_symbol_visible_lemma _ _ _ k _ _ Hr val Hi Hl) as [val' H]. cbn [snd] in H.
+  apply (run_load_visible rs2 lang2 k sz b2 v' val'). rewrite cache_get_lives, H. reflexivity.
+Qed.
+
+(* computable witnesses for reaches_within *)
+Definition nav_inv_b (st : state) (ca : cache) : bool := cache_levels ca =? len (s_path st) + 1.
+Lemma nav_inv_b_sound st ca : nav_inv_b st ca = true -> nav_inv st ca.
+Proof. unfold nav_inv_b, nav_inv. intros H. apply N.eqb_eq in H. exact H. Qed.
+
+Fixpoint iter_within (m : nat) (n : N) (rs : rsrc) (sep : bytes) (c : conf) : option conf :=
+  match m with
+  | O => Some c
+  | S m' =>
+    let '(lang, b, v) := c in
+    match run_step rs sep lang b v with
+    | Next l1 b1 v1 =>
+      if (n <=? len (s_path (v_st v1))) && nav_inv_b (v_st v1) (v_ca v1) then iter_within m' n rs sep (l1, b1, v1) else None
+    | Done _ => None
+    end
+  end.
+
+Lemma iter_within_sound m : forall n rs sep c c', iter_within m n rs sep c = Some c' -> reaches_within rs sep n c c'.
+Proof.
+  induction m as [|m IH]; intros n rs sep c c' H; cbn [iter_within] in H.
+  - injection H as <-. apply within_refl.
+  - destruct c as [[lang b] v]. destruct (run_step rs sep lang b v) as [r|l1 b1 v1] eqn:Hs; [discriminate|].
+    destruct ((n <=? len (s_path (v_st v1))) && nav_inv_b (v_st v1) (v_ca v1)) eqn:Hc; [|discriminate].
+    apply andb_prop in Hc as [H1 H2]. apply N.leb_le in H1. apply nav_inv_b_sound in H2.
+    eapply within_step; [exact Hs|exact H1|exact H2|apply IH; exact H].
+Qed.
+
+(* the configuration Exec hands to the run loop for `input` on engine e (None when Exec stops before) *)
+Definition ex_exec_conf (rs : rsrc) (c : config) (e : engine) (input : bytes) : option conf :=
+  let '(e1, cont, s) := eng_init ex_fuel rs c e input in
+  match s, cont, set_input (v_st (e_v e1)) (Some input) with
+  | SOk, true, Ok st' => Some (exec_start c (eset_v e1 (vset_st (e_v e1) st')))
+  | _, _, _ => None
+  end.
